@@ -3,4 +3,4 @@
 cd "$(dirname "$0")/checker" || exit 2
 unset GOWORK GOSUMDB
 export GOFLAGS=-mod=mod GOPROXY=off GONOSUMDB='golang.org/x/*' GOTOOLCHAIN=auto
-gofmt -l . ; go vet ./... 2>&1 | head -20; go build -o ../bin/icsverif . 
+gofmt -w . ; go vet ./... 2>&1 | head -20; go build -o ../bin/icsverif . 
